@@ -59,6 +59,56 @@ def replay(c, behs, kind, want=lambda names: True):
                     return
 
 
+CONCURRENT_SCRIPTS = [
+    [('SvcChange', ()), ('PollAnswer', ('update',)), ('SvcChange', ()), ('PollAnswer', ('update',))],
+    [('SvcChange', ()), ('PollAnswer', ('update',)), ('Register', ('L1',)), ('SvcChange', ()), ('PollAnswer', ('update',))],
+    [('Register', ('L1',)), ('Unregister', (1,))],
+    [('Register', ('L1',)), ('Register', ('L1',)), ('Unregister', (1,)), ('SvcChange', ()), ('PollAnswer', ('update',))],
+]
+
+
+def concurrent_leg(c, scripts, max_preemptions, max_runs, kind='line-schedule'):
+    """Every bounded-preemption schedule of the polling/registering thread and the two pool workers (line level in
+    tracepoint_config.py): once everything has settled the handler must have the latest state (Converged)."""
+    from .. import sched as S
+    shown = 0
+    for script in scripts:
+        def make_run():
+            sysm = D.ConcurrentSync(script)
+            sysm.spawn()
+
+            def finish(sched, schedule):
+                return sysm.finish()
+            return sysm.sched, finish
+        n = 0
+        for schedule, final in S.explore(make_run, max_preemptions=max_preemptions, max_runs=max_runs):
+            n += 1
+            c.traces_validated += 1
+            c.note_case(key=(kind, str(script), str(schedule)), nontrivial=True)
+            bad = None
+            if final['errors']:
+                bad = 'exception: %s' % final['errors']
+            elif final['installed']['cfg'] != final['polled'] or final['installed']['regs'] != sorted(final['custom']):
+                bad = 'after everything settled the handler has %s but the service config is %s and the custom ' \
+                      'registrations are %s' % (final['installed'], final['polled'], final['custom'])
+            elif final['hash'] != final['polled']:
+                bad = 'hash %s but polled config %s' % (final['hash'], final['polled'])
+            if bad:
+                comp = []
+                for s_ in schedule:
+                    if comp and comp[-1][0] == s_:
+                        comp[-1][1] += 1
+                    else:
+                        comp.append([s_, 1])
+                path = c.save_replay({'direction': 'C2S', 'module': 'ConfigSync', 'kind': kind, 'script': script,
+                                      'schedule': comp, 'final': final})
+                if c.violation('%s script %s schedule %s: %s' % (kind, script, comp, bad), path):
+                    shown += 1
+                break
+        if shown >= 4:
+            return
+
+
 def timer_survives(c):
     """A failing / unintelligible poll leaves polling running (RepeatedTimer + LongPoll.start with a tiny interval)."""
     sysm = D.SyncSystem()
@@ -115,6 +165,7 @@ def run(c):
                        seed=c.seed + 3)
     c.transitions += sim.generated
     replay(c, sim.behaviours, 'simulate')
+    concurrent_leg(c, CONCURRENT_SCRIPTS[:2], 2 if quick else 3, 400 if quick else 6000)
     timer_survives(c)
 
 
